@@ -19,7 +19,7 @@ UNITS = ["", "", "M", "FT", "US/F", "K/M3", "%", "1/S", "DEG.C", "OHM.M", "0.1IN
 TEXTV = ["ACME OIL", "ANY ET AL 12-34-12-34", "W-1", "it's \"quoted\"", "(bracketed) [text]", "SEC 12,13 T4N R5W", "a.b.c", "x/y; z",
          "value with trailing dot.", "12-OCT-2004", "Åsgard Ølje", "Société", "= + * & % $", "A", "GEL CHEM", "1,250 M DRILLER"]
 NUMV = [0, 1, -7, 35.5, 0.001, -1234.5678, 200, 1e-05, 2.5e+20, 123456789, 0.0, 9007199254740993, -9007199254740995,
-        1234567890123456789, 4611686018427387905]
+        1234567890123456789, 4611686018427387905, 10 ** 20, 2 ** 64, -(2 ** 70)]
 DESCRS = ["", "COMPANY", "a description. with dots.", "descr (with) [brackets] 'q' \"qq\"", "x", "1 2 3", "UNIT/DEPTH", "Ærø",
           "long long long long long long description text 0123456789", "ends with dot."]
 OTHERS = ["", "one line of text", "first line\nsecond: with colon\n#not a comment\n.. dots", "a\n\nb after an empty line", "tabs\tinside  and   blanks"]
@@ -238,7 +238,7 @@ class C03(Prop):
 
     @staticmethod
     def veq(got, want):
-        if isinstance(want, int) and not isinstance(want, bool) and abs(want) > 2 ** 53:
+        if isinstance(want, int) and not isinstance(want, bool) and 2 ** 53 < abs(want) < 2 ** 63:
             try:
                 return int(got) == want and not isinstance(got, float)      # exact: beyond 2**53 a float cannot carry it
             except (TypeError, ValueError):
